@@ -141,3 +141,7 @@ func dump() {
 
 // Done prints the observations (called by the replay test after the harness).
 func Done() { dump(); fmt.Println("SV-DONE") }
+
+// Reencode returns another byte encoding of the same JSON document
+// (insignificant trailing whitespace).
+func Reencode(b []byte) []byte { return append(append([]byte(nil), b...), ' ') }
